@@ -13,15 +13,22 @@ pub open spec fn rec_fields<T: Types>(r: WALRecord<T>) -> Seq<u8> {
         WALRecord::State(s) => s.enc(),
     }
 }
+pub open spec fn tag_known(input: Seq<u8>) -> bool { exists|t: u32| t <= 5 && #[trigger] be32(t) == input.take(4) }
 pub open spec fn rec_body<T: Types>(r: WALRecord<T>) -> Seq<u8> { be32(rec_tag(r)) + rec_fields(r) }
 
 impl<T: Types> codeq::EncSpec for RaftLogState<T> {
     /// version byte 1, then the five optional fields in declaration order
     open spec fn enc(&self) -> Seq<u8> { seq![1u8] + self.vote.enc() + self.last.enc() + self.committed.enc() + self.purged.enc() + self.user_data.enc() }
+    open spec fn err_ok(input: Seq<u8>, k: IoErrorKind) -> bool { true }
 }
 impl<T: Types> codeq::EncSpec for WALRecord<T> {
     /// type tag, fields, 8-byte checksum of tag+fields
     open spec fn enc(&self) -> Seq<u8> { rec_body(*self) + be64(crc(rec_body(*self))) }
+    /// UnexpectedEof is only admissible when the input is shorter than a type tag or carries a KNOWN type tag (0..=5):
+    /// an unknown tag on a complete record is InvalidData
+    open spec fn err_ok(input: Seq<u8>, k: IoErrorKind) -> bool {
+        k == IoErrorKind::UnexpectedEof ==> input.len() < 4 || tag_known(input)
+    }
 }
 
 pub open spec fn mk_state<T: Types>(vote: Option<T::Vote>, last: Option<T::LogId>, committed: Option<T::LogId>, purged: Option<T::LogId>, user_data: Option<T::UserData>) -> RaftLogState<T> { RaftLogState { vote, last, committed, purged, user_data } }
